@@ -248,7 +248,12 @@ def conforms(value, term, env):
                 return False
             if not conforms(k, term[2], env):
                 return False
-        return True
+        # ... and the keys the container itself goes by (a key function may disagree with the items' key attribute)
+        try:
+            own_keys = list(value.keys())
+        except Exception:
+            return False
+        return all(conforms(k, term[2], env) for k in own_keys)
     raise ValueError(f"unknown term {term!r}")
 
 
